@@ -89,9 +89,14 @@ impl AggregateState {
 
     pub(crate) fn update(&mut self, func: &AggregateFunction, row: &ExecutorRow) {
         match func {
-            AggregateFunction::Count { distinct: _ } => {
-                self.count += 1;
-            }
+            AggregateFunction::Count { distinct: _, column } => match column {
+                None => self.count += 1,
+                Some(col) => {
+                    if matches!(row.get(*col), Some(val) if !val.is_null()) {
+                        self.count += 1;
+                    }
+                }
+            },
             AggregateFunction::Sum { column } => {
                 if let Some(val) = row.get(*column) {
                     match val {
